@@ -331,6 +331,7 @@ def run_workers(scratch, binary, runner, base_job, shards=None, case_timeout=30,
     deadline = time.time() + total_timeout
     e = dict(os.environ)
     e.setdefault("GOMAXPROCS", "2")   # one worker process per core: keep each runtime small
+    e.setdefault("GOMEMLIMIT", "3GiB")  # 16 workers share the machine: collect garbage before the heap gets large
     if env:
         e.update(env)
 
